@@ -22,7 +22,7 @@ package htlc
 // Genesis import (C12): every listed contract is stored under its id, unchanged, and queued for its expiration height
 // (so that a re-imported open contract still expires), whether it is a plain HTLC or a cross-chain transfer.
 //@ func InitGenesis
-//@   property C12
+//@   property C03, C04, C12
 //@   modifies htlcs, queue, supplies, prm, prevTime
 //@   invariant #1 idx:   rangeindex >= 0 - 1 && rangeindex < len(data.Supplies)
 //@   invariant #1 frame: htlcs == old(htlcs) && queue == old(queue)
